@@ -81,6 +81,11 @@ func (mr *MultiReaderCloser) writeToWithBuffer(w io.Writer, buf []byte) (sum int
 			mr.readers = mr.readers[i:] // permit resume / retry after error
 			return sum, err
 		}
+		// The reader was consumed entirely: close it like Read does, because
+		// Close will not see it anymore.
+		if rc, ok := r.(io.Closer); ok {
+			_ = rc.Close()
+		}
 		mr.readers[i] = nil // permit early GC
 	}
 	mr.readers = nil
